@@ -211,6 +211,15 @@ def run_authenticate(ctx, clients, header, form_cred, query_id, assertion, metho
     mreq.update(form_id=form.get("client_id"), form_secret=form.get("client_secret"),
                 data_id=data.get("client_id"), data_secret=data.get("client_secret"))
     req = OAuth2Request("POST", uri, form, {} if header is None else {"Authorization": header})
+    # the same request as the repository's Flask / Django glue hands it to the authenticator (impl/transports.py)
+    from impl import transports as T
+    transport = T.pick(header, form, uri, methods, endpoint)
+    hreq = S.HReq("POST", uri, form, {} if header is None else {"Authorization": header})
+    if transport != "neutral" and T.usable(hreq, transport):
+        req = T.wrap(transport, hreq)
+    else:
+        transport = "neutral"
+    ctx.count("transport:" + transport)
     if shared is None:
         ca = ClientAuthentication(lambda cid: clients.get(cid))
         used_impl = set(used)
@@ -236,7 +245,7 @@ def run_authenticate(ctx, clients, header, form_cred, query_id, assertion, metho
     case = {"header": header, "form": form_cred, "query_id": query_id, "query_secret": query_secret,
             "assertion": None if assertion is None else assertion[1].get("assertion_claims"),
             "assertion_flags": None if assertion is None else [assertion[1]["assertion_sig_ok"], assertion[1]["assertion_wellformed"], assertion[1]["assertion_type"][-10:]],
-            "methods": methods, "endpoint": endpoint}
+            "methods": methods, "endpoint": endpoint, "transport": transport}
     ctx.case(case, (header, str(form_cred), query_id, json.dumps(case["assertion"]), tuple(methods), endpoint, str(got)),
              "auth:" + ":".join(map(str, got[:2] if got[0] != "ok" else got[:1])))
     ctx.compare("authenticate", case, got, mod)
